@@ -715,6 +715,13 @@ func (se *SpecEnv) callSpec(c *ast.CallExpr) Value {
 			unsup("reg(): modulus is even")
 		}
 		t := targ(0)
+		if t.Op == OConst {
+			// concrete argument (contract evaluation on a real run): the residue itself, v * R^-1 mod q
+			if rinv := new(big.Int).ModInverse(new(big.Int).Mod(fp.R, fp.Q), fp.Q); rinv != nil {
+				x := new(big.Int).Mul(new(big.Int).Mod(t.K, fp.Q), rinv)
+				return F.Int(x.Mod(x, fp.Q))
+			}
+		}
 		r := F.App("reg", SInt, t)
 		if _, done := F.Defs[r]; !done {
 			k := F.App("kreg", SInt, t)
